@@ -8,7 +8,7 @@ PROPS = {
         verus_units=[("stack", {}, "")],
         kani_complete=[], kani_bounded=[],
         searcher="stack",
-        design_ref="DESIGN.md section 5, C11",
+        design_ref="DESIGN.md section 4, C11",
         technique="contract-based deductive verification (Verus): abstraction-function model + well-formedness invariant on the real Stack methods, extracted from /repo each run",
         level_text="Unbounded proof: every Stack method, copied token-for-token from pest/src/stack.rs, is verified by Verus against the naive full-copy model through an abstraction function; wf is an inductive invariant, so all histories and all snapshot depths are covered; all arithmetic/range preconditions are discharged (no panic).",
         level_note="Assumed: std contracts of Vec::drain/extend/rev (3 external_body helpers), Clone returns an equal element, Verus/Z3/vstd, the extractor. The Index<Range<usize>> impl is verified as an inherent method (Verus rejects requires on trait impls).",
@@ -39,8 +39,8 @@ CORE_NOT_COVERED = [
 PROPS["C03"] = dict(
     title="Parser-state combinators are all-or-nothing and match exactly",
     verus_units=[("core", {}, ""), ("core", {"feature.memchr": True}, "memchr")],
-    kani=["inmod_c03", "peek_enum"], searcher=["prims", "peek", "state"],
-    design_ref="DESIGN.md section 5, C03",
+    kani=["inmod_c03", "peek_enum"], searcher=["peek", "prims", "stack", "state"],
+    design_ref="DESIGN.md section 4, C03",
     technique="contract-based deductive verification (Verus): frame law with closure laws on every ParserState combinator, exact functional contracts on the Position matchers over vstd's UTF-8 theory; real code extracted from /repo each run",
     level_text="Unbounded proof for all call trees built from lawful closures and all inputs: every public ParserState operation is verified against the frame law (input, flags, snapshots below entry depth and earlier tokens untouched) given that its closure arguments obey it; failed sequence / any lookahead restore position, tokens (up to node tags, finding F2) and stack; rule emits exactly one balanced Start/End pair around its body's tokens iff it succeeds outside lookahead/atomic; match_string/insensitive/range/char_by/skip/skip_until_basic have exact iff/advance/stay/boundary postconditions proved from vstd's UTF-8 definitions.",
     level_note="Assumed: vstd specs, std helper contracts (listed in evidence), the lawful-closure hypothesis, 3 external_body functions (Position::span: ptr::eq; BorrowedOrArc::as_str and SpanOrLiteral::as_borrowed_or_rc: Arc deref/clone), the memchr crate's documented contract in the memchr configuration. Every combinator also carries a direct-reading postcondition (sequence, lookahead, optional, repeat as a ghost chain, atomic, restore_on_err, rule, stack_push); stack_match_peek_slice and constrain_idxs are verified from their bodies. stack_push_literal is not under contract. Quick tier adds an enumerative cross-check of PEEK[a..b] / PEEK_ALL / POP_ALL (not counted).",
@@ -50,7 +50,7 @@ PROPS["C04"] = dict(
     title="The token stream is a well-formed tree and every Pairs view agrees with it",
     verus_units=[("core", {}, ""), ("pairs", {}, "")],
     kani=["pairs_enum"], searcher=["pairs", "state"],
-    design_ref="DESIGN.md section 5, C04",
+    design_ref="DESIGN.md section 4, C04",
     technique="contract-based deductive verification (Verus): recursive closed-forest predicate as part of the frame law of every ParserState operation; precondition of pairs::new discharged in state()",
     level_text="Part (a), emission: proved for all call trees of lawful closures that the tokens appended by any operation form a closed forest (balanced, properly nested, positions non-decreasing, on UTF-8 boundaries, within the text walked), hence every successful parse hands pairs::new a well-formed stream. Part (b), views: see the pairs unit.",
     level_note="As C03. Display/Debug/JSON/concat views build strings through format!/serde and are outside the Verus subset; the node-tag views and the text views are decided only by the pairs_search enumeration in the quick tier (bounded stand-in, not counted).",
@@ -61,7 +61,7 @@ PROPS["C08"] = dict(
     title="Failure reports point at the furthest failure with sound expectations",
     verus_units=[("core", {}, "")],
     kani=[], searcher=["state"],
-    design_ref="DESIGN.md section 5, C08",
+    design_ref="DESIGN.md section 4, C08",
     technique="contract-based deductive verification (Verus) with a ghost attempt history: exact functional model of track, history invariant preserved by every operation, state() reports attempt_pos and the sorted, deduplicated lists",
     level_text="Unbounded proof: track is verified against an exact functional model written from the property text (atomic => nothing; exactly-one-child exception; further => restart lists; same position => replace inner attempts; behind => nothing); a ghost set of (rule, position, polarity) events is extended in rule at both track sites; the invariant 'every listed rule is in the history at attempt_pos with the right polarity, no history entry lies beyond attempt_pos, attempt_pos is attained (or 0)' is preserved by every operation and exported by state(), whose Err branch reports attempt_pos (a boundary) and sort+dedup images of the two lists.",
     level_note="As C03, plus: std sort/dedup contract assumed (sorted, no duplicates, same set); the ghost history is a specification device woven into rule; both back-ends enter through ParserState::rule - their own dispatch code is not under contract.",
@@ -71,7 +71,7 @@ PROPS["C12"] = dict(
     title="A call limit never changes a result silently",
     verus_units=[("core", {}, "")],
     kani=[], searcher=["state"],
-    design_ref="DESIGN.md section 5, C12",
+    design_ref="DESIGN.md section 4, C12",
     technique="contract-based deductive verification (Verus) with a ghost 'refused' bit set where inc_call_check_limit refuses; refusal law proved per operation; three operations violate it (known findings F4)",
     level_text="Unary formulation of the two-run property: limit constant and counter monotone (frame), inc_call_check_limit refuses iff the limit is reached and records it in a ghost bit, every operation whose closures obey the refusal law obeys it too (a refusal during the call makes the call fail), state() turns an Err with the limit reached into the 'call limit reached' error. optional, repeat and negative lookahead do NOT obey the law: recorded as known findings F4 (isolated failing obligations). repeat carries its direct reading as a ghost chain of closure results (it may stop only when the closure fails); limit_reached, CallLimitTracker::default and inc_call_check_limit are verified from their bodies.",
     level_note="As C03. Choice is Result::or_else in generated code / the VM (std), outside the contracts; it absorbs refusals the same way (F4).",
@@ -81,7 +81,7 @@ PROPS["C15"] = dict(
     title="Detailed error tracking is observationally transparent",
     verus_units=[("core", {}, "")],
     kani=[], searcher=["state"],
-    design_ref="DESIGN.md section 5, C15",
+    design_ref="DESIGN.md section 4, C15",
     technique="contract-based deductive verification (Verus): frame obligations at every place that consults parse_attempts.enabled, two-run lemmas derived from the matcher contracts, boundary invariant on max_position",
     level_text="Proved: handle_token_parse_result, try_add_new_token, nullify_expected_tokens and the detail block inlined in rule change nothing but parse_attempts; for the four matchers a two-run lemma (states equal except parse_attempts => results equal except parse_attempts, same Ok/Err) follows from their contracts; max_position is always a UTF-8 boundary of the input. try_add_new_stack_rule is verified from its body (iterator adaptors desugared by R25/R25b, splice through the std contract R26): in-range given start_index <= len, touches only call_stacks above start_index.",
     level_note="As C03. Not covered: rendering of the help message (format!/BTreeMap). Non-interference for rule/state rests on the frame assertions around the guarded blocks plus the syntactic fact that the remembered counters are used only inside them.",
@@ -92,7 +92,7 @@ PROPS["C10"] = dict(
     title="Line/column arithmetic and error rendering are correct for all text",
     verus_units=[("lines", {}, ""), ("pairs", {}, "")],
     kani=["inmod_c10", "lines_enum"], searcher=["lines"],
-    design_ref="DESIGN.md section 5, C10",
+    design_ref="DESIGN.md section 4, C10",
     technique="contract-based deductive verification (Verus) of the index arithmetic over vstd's UTF-8 theory; bounded Kani harnesses for the iterator-chain functions and an exhaustive native enumeration of short texts for the clauses outside every contract (error construction and rendering)",
     level_text="Unbounded proof: LineIndex::new records exactly the offsets after every newline character (loop invariant over chars()); LineIndex::line_col returns (1 + newlines before the offset, 1 + characters since the last newline) for every boundary offset inside the indexed prefix; Span::new / Position::new succeed exactly on ordered boundary offsets; merge_spans; find_line_start / find_line_end return exactly the byte-level line start ls / line end le (their iterator chains desugared by R33 over assumed std contracts of CharIndices; a 0x0A byte is proved to occur only as the one-byte character '\\n'); line_of and LinesSpan::next yield exactly the line [ls, le) containing the cursor and advance to the start of the next line.",
     level_note="Assumed: std contracts only - CharIndices (next / next_back yield (byte offset, char) in order), Peekable, partition_point, chars().count(), str range indexing helper. Position::line_col is verified from its body (chars().peekable() through assumed std contracts of core::iter::Peekable, R31/R32): it returns exactly (1 + newlines, 1 + characters since the last newline) of the characters before the offset. Outside every contract: Error::new_from_pos/new_from_span and Display (format!, String building) - decided only by bounded stand-ins: the lines_search enumeration (every text of <= 5 characters over a 6-character mixed alphabet, every offset and offset pair, all access paths, rendered marker position).",
@@ -107,7 +107,7 @@ PROPS["C10"] = dict(
 PROPS["C16"] = dict(
     title="Unicode property rules are consistent for every code point",
     verus_units=[], kani=["unicode"], searcher="unicode",
-    design_ref="DESIGN.md section 5, C16",
+    design_ref="DESIGN.md section 4, C16",
     technique="contract-based verification with Kani/CBMC: loop-free harnesses over a fully symbolic `char` on the real pest::unicode functions (complete over all 1,112,064 scalar values)",
     level_text="Complete proof over the finite domain of all Unicode scalar values: each clause (exactly one two-letter general category; each grouped category equals the union of its members; scripts pairwise disjoint) is one loop-free CBMC query with a symbolic char through the real ucd_trie lookup on the real generated tables. Quick tier: partition + 8 unions; thorough adds the 163-script disjointness harness.",
     level_note="Trusted: Kani 0.68/CBMC/CaDiCaL; the grouping table (UAX#44) in vx/gen_unicode.py is the specification. Name clause (by_name resolves every advertised name and agrees with the function): exhaustive native enumeration as a labelled stand-in, not a proof; the same run requires the grammar validator to accept every advertised name and compares pest_vm and a derive-generated parser with the property function at every range edge (enumerative, not a proof).",
